@@ -860,6 +860,33 @@ class InstrOps:
                 if pp is not False:
                     ents.append((k, v, pp))
         kt, et = self.map_types(ins["xt"])
+        mo = self.opts.get("map_order")
+        if mo in ("rotate", "dihedral") and 1 < len(ents) <= int(self.opts.get("map_order_max", 4)):
+            # opt-in: Go's map iteration order is unspecified. The snapshot (insertion order) is traversed from a
+            # solver-chosen start ("rotate"), optionally also backwards ("dihedral": for <= 3 entries that is every
+            # permutation). Keys/values of the t-th visited entry become ite-terms over the choice.
+            n = len(ents)
+            k = z3.BitVec(self.fresh_name("nd.maporder"), 64)
+            self.assume(b_and(int_cmp(">=", k, 0, 64, True), int_cmp("<", k, n, 64, True)), True, "map iteration start in [0,%d)" % n)
+            self.nondets.append(("maporder", k, "choice"))
+            rev = False
+            if mo == "dihedral":
+                rev = z3.Bool(self.fresh_name("nd.maprev"))
+                self.nondets.append(("maprev", rev, "choice"))
+            out = []
+            for j in range(n):
+                kk, vv, pp = ents[j % n]
+                for r in range(n):
+                    for d in ((False, True) if mo == "dihedral" else (False,)):
+                        if r == 0 and d is False:
+                            continue
+                        ck, cv, cp = ents[(r - j) % n] if d else ents[(r + j) % n]
+                        c = b_and(int_cmp("==", k, r, 64, True), rev if d else b_not(rev))
+                        kk = self.ite(c, ck, kk, kt)
+                        vv = self.ite(c, cv, vv, et)
+                        pp = b_ite(c, cp, pp)
+                out.append((kk, vv, pp))
+            ents = out
         o = self.alloc("iter", None, {"kind": "map", "ents": ents, "pos": 0, "kt": kt, "et": et, "mapptr": x}, site="range")
         return IterV_(o.id)
 
